@@ -112,3 +112,13 @@ CHECKS["C07"] = dict(
              reach=["end", "restored", "not-restored", "not-persisted"]),
     ],
 )
+
+CHECKS["C16"] = dict(
+    explanation="bounded symbolic execution of the real compaction (rewriteAofFiles: findRewriteAofFiles, loadRewriteAofFiles with the LockDB.HasLock filter, clearRewriteAofFiles) over the file model, which keeps a directory image after every mutation; every image is recovered by a fresh instance with the real FindAofFiles/LoadAofFiles",
+    assumptions=["file model: every create / write / remove / rename / truncate is atomic and durable in program order"],
+    harnesses=[
+        dict(pkg="server", name="C16_whole", bound="history: 2 holds on 2 keys, one released, rotation, optionally a third hold in the new append file; uninterrupted compaction", flags=["-witness", "1"], reach=["end"]),
+        dict(pkg="server", name="C16_crash", bound="same history; crash after each individual file-system mutation of the compaction (fork over all of them)", flags=[], reach=["end", "window"], native=False),
+        dict(pkg="server", name="C16_renamefail", bound="same history; the directory image of the remove-before-rename window produced without a crash (native twin of the recorded finding)", flags=["-witness", "1"], reach=[]),
+    ],
+)
